@@ -369,92 +369,119 @@ structure Outcome (α : Type) where
   store : Store
   trace : List Event
 
+def Outcome.prepend {α : Type} (ev : List Event) (o : Outcome α) : Outcome α := { o with trace := ev ++ o.trace }
+
+/-- exclude list: only a non-empty list is looked up; lookup errors and empty results are ignored.
+Returns (a listed credential is present, store, events). -/
+def excludePhase (s : Store) (req : MakeReq) : Bool × Store × List Event :=
+  match req.excludeList with
+  | some l =>
+    if l.isEmpty then (false, s, []) else
+    (match (s.find (some l) req.rpId).1 with
+      | .ok creds => !creds.isEmpty
+      | .error _ => false,
+     (s.find (some l) req.rpId).2.1, [(s.find (some l) req.rpId).2.2])
+  | none => (false, s, [])
+
+/-- "rk" needs the capability (`get_info` asks the store); only consulted when rk is requested.
+Returns (refused, store, events). -/
+def rkPhase (s : Store) (req : MakeReq) : Bool × Store × List Event :=
+  if req.rk then (s.info.1 == .onlyNonDiscoverable, s.info.2.1, [s.info.2.2]) else (false, s, [])
+
+/-- the passkey that is created -/
+def newPasskey (cfg : Cfg) (d : Disc) (dr : Draws) (req : MakeReq) (stored : Option HmacSecret) : Passkey :=
+  { credId := dr.credId, rpId := req.rpId, userHandle := if d.isDiscoverable req.rk then some req.userId else none,
+    counter := if cfg.counterOn then some 0 else none, key := dr.key, hmac := stored }
+
+/-- store capability query, build the passkey and the response, save -/
+def finishMake (cfg : Cfg) (s : Store) (dr : Draws) (req : MakeReq) (flags : UInt8)
+    (prfOut : Option PrfMakeOut) (stored : Option HmacSecret) : Outcome MakeResp :=
+  let passkey := newPasskey cfg s.info.1 dr req stored
+  let authData := ((AuthData.new req.rpId passkey.counter).setFlags flags).setAcd
+    ⟨cfg.aaguid, dr.credId, coseKeyBytes dr.key⟩
+  let sv := s.info.2.1.save passkey req.userId req.rk req.up req.uv
+  match sv.1 with
+  | .error e => ⟨.error e, sv.2.1, [s.info.2.2, sv.2.2]⟩
+  | .ok () => ⟨.ok { authData, unsignedPrf := prfOut }, sv.2.1, [s.info.2.2, sv.2.2]⟩
+
+/-- `make_credential` after the user-validation step returned `flags` -/
+def makeAfterConsent (cfg : Cfg) (s : Store) (dr : Draws) (req : MakeReq) (flags : UInt8) : Outcome MakeResp :=
+  let ex := excludePhase s req
+  if ex.1 then ⟨.error eCredentialExcluded, ex.2.1, ex.2.2⟩ else
+  match chooseAlgorithm cfg req.algs with
+  | .error e => ⟨.error e, ex.2.1, ex.2.2⟩
+  | .ok _alg =>
+    let rk := rkPhase ex.2.1 req
+    if rk.1 then ⟨.error eUnsupportedOption, rk.2.1, ex.2.2 ++ rk.2.2⟩ else
+    if req.pinAuth then ⟨.error eUnsupportedOption, rk.2.1, ex.2.2 ++ rk.2.2⟩ else
+    match makeExtensions cfg dr req.ext req.uv with
+    | .error e => ⟨.error e, rk.2.1, ex.2.2 ++ rk.2.2⟩
+    | .ok (prfOut, stored) => (finishMake cfg rk.2.1 dr req flags prfOut stored).prepend (ex.2.2 ++ rk.2.2)
+
 /-- `Authenticator::make_credential` -/
 def makeCredential (cfg : Cfg) (u : UvCfg) (s : Store) (dr : Draws) (req : MakeReq) : Outcome MakeResp :=
   if !req.up then ⟨.error eInvalidOption, s, []⟩ else
   match checkUser u req.up req.uv none with
   | (.error e, ev) => ⟨.error e, s, ev⟩
-  | (.ok flags, ev) =>
-    -- exclude list: only a non-empty list is looked up; lookup errors and empty results are ignored
-    let (excluded, s, ev) :=
-      match req.excludeList with
-      | some l =>
-        if l.isEmpty then (false, s, ev) else
-        let (r, s', e) := s.find (some l) req.rpId
-        (match r with | .ok creds => !creds.isEmpty | .error _ => false, s', ev ++ [e])
-      | none => (false, s, ev)
-    if excluded then ⟨.error eCredentialExcluded, s, ev⟩ else
-    match chooseAlgorithm cfg req.algs with
-    | .error e => ⟨.error e, s, ev⟩
-    | .ok _alg =>
-      -- "rk" needs the capability (get_info asks the store), only consulted when rk is requested
-      let (rkRefused, s, ev) :=
-        if req.rk then
-          let (d, s', e) := s.info
-          (d == .onlyNonDiscoverable, s', ev ++ [e])
-        else (false, s, ev)
-      if rkRefused then ⟨.error eUnsupportedOption, s, ev⟩ else
-      if req.pinAuth then ⟨.error eUnsupportedOption, s, ev⟩ else
-      match makeExtensions cfg dr req.ext req.uv with
-      | .error e => ⟨.error e, s, ev⟩
-      | .ok (prfOut, stored) =>
-        let (d, s, e) := s.info
-        let ev := ev ++ [e]
-        let isRk := d.isDiscoverable req.rk
-        let passkey : Passkey :=
-          { credId := dr.credId, rpId := req.rpId, userHandle := if isRk then some req.userId else none,
-            counter := if cfg.counterOn then some 0 else none, key := dr.key, hmac := stored }
-        let authData := ((AuthData.new req.rpId passkey.counter).setFlags flags).setAcd
-          ⟨cfg.aaguid, dr.credId, coseKeyBytes dr.key⟩
-        let (r, s, e) := s.save passkey req.userId req.rk req.up req.uv
-        let ev := ev ++ [e]
-        match r with
-        | .error e => ⟨.error e, s, ev⟩
-        | .ok () => ⟨.ok { authData, unsignedPrf := prfOut }, s, ev⟩
+  | (.ok flags, ev) => (makeAfterConsent cfg s dr req flags).prepend ev
+
+/-- extensions, authenticator data, signature, response -/
+def signPhase (cfg : Cfg) (s : Store) (req : GetReq) (flags : UInt8) (cred : Passkey) : Outcome GetResp :=
+  match getExtensions cfg cred req.ext (flags &&& PasskeyVerif.Generated.Flags.UV != 0) with
+  | .error e => ⟨.error e, s, []⟩
+  | .ok prf =>
+    match ((AuthData.new req.rpId cred.counter).setFlags flags).toVec with
+    | none => ⟨.error eInvalidCredential, s, []⟩
+    | some adBytes =>
+      ⟨.ok { credId := cred.credId, authData := (AuthData.new req.rpId cred.counter).setFlags flags,
+             signed := ⟨cred.key, adBytes ++ req.cdh⟩, userHandle := cred.userHandle, unsignedPrf := prf }, s, []⟩
+
+/-- the saturating counter increment of the repaired code -/
+def bump (c : Nat) : Nat := min (c + 1) 4294967295
+
+/-- `get_assertion` after the user-validation step returned `flags`, for the credential located:
+a credential with a counter is first written back with the incremented counter -/
+def getAfterConsent (cfg : Cfg) (s : Store) (req : GetReq) (flags : UInt8) (cred : Passkey) : Outcome GetResp :=
+  match cred.counter with
+  | some c =>
+    let cred' := { cred with counter := some (bump c) }
+    let up := s.update cred'
+    match up.1 with
+    | .error e => ⟨.error e, up.2.1, [up.2.2]⟩
+    | .ok () => (signPhase cfg up.2.1 req flags cred').prepend [up.2.2]
+  | none => signPhase cfg s req flags cred
+
+/-- the allow list as handed to the store: an empty list counts as absent -/
+def allowIds (req : GetReq) : Option (List Bytes) :=
+  match req.allowList with
+  | some l => if l.isEmpty then none else some l
+  | none => none
+
+/-- first credential of the lookup result -/
+def firstCred (found : Except Nat (List Passkey)) : Except Nat Passkey :=
+  match found with
+  | .ok (p :: _) => .ok p
+  | .ok [] => .error eNoCredentials
+  | .error e => .error e
+
+/-- the credential handed to the user-validation step: the located one, if any -/
+def shownOf (m : Except Nat Passkey) : Option Bytes :=
+  match m with
+  | .ok p => some p.credId
+  | .error _ => none
 
 /-- `Authenticator::get_assertion` -/
 def getAssertion (cfg : Cfg) (u : UvCfg) (s : Store) (req : GetReq) : Outcome GetResp :=
-  let ids := match req.allowList with
-    | some l => if l.isEmpty then none else some l
-    | none => none
-  let (found, s, e) := s.find ids req.rpId
-  let ev := [e]
-  let maybe : Except Nat Passkey := match found with
-    | .ok (p :: _) => .ok p
-    | .ok [] => .error eNoCredentials
-    | .error e => .error e
-  if req.pinAuth then ⟨.error ePinAuthInvalid, s, ev⟩ else
-  if req.rk then ⟨.error eUnsupportedOption, s, ev⟩ else
-  match checkUser u req.up req.uv (match maybe with | .ok p => some p.credId | .error _ => none) with
-  | (.error e, ev2) => ⟨.error e, s, ev ++ ev2⟩
+  let f := s.find (allowIds req) req.rpId
+  let maybe := firstCred f.1
+  if req.pinAuth then ⟨.error ePinAuthInvalid, f.2.1, [f.2.2]⟩ else
+  if req.rk then ⟨.error eUnsupportedOption, f.2.1, [f.2.2]⟩ else
+  match checkUser u req.up req.uv (shownOf maybe) with
+  | (.error c, ev2) => ⟨.error c, f.2.1, f.2.2 :: ev2⟩
   | (.ok flags, ev2) =>
-    let ev := ev ++ ev2
     match maybe with
-    | .error e => ⟨.error e, s, ev⟩
-    | .ok cred =>
-      -- counter: saturating increment, then the store must accept it
-      let (cred, upd) : Passkey × Option (Except Nat Unit × Store × Event) :=
-        match cred.counter with
-        | some c =>
-          let cred' := { cred with counter := some (min (c + 1) 4294967295) }
-          (cred', some (s.update cred'))
-        | none => (cred, none)
-      let (updRes, s, ev) : Except Nat Unit × Store × List Event :=
-        match upd with
-        | some (r, s', e) => (r, s', ev ++ [e])
-        | none => (.ok (), s, ev)
-      match updRes with
-      | .error e => ⟨.error e, s, ev⟩
-      | .ok () =>
-        match getExtensions cfg cred req.ext (flags &&& PasskeyVerif.Generated.Flags.UV != 0) with
-        | .error e => ⟨.error e, s, ev⟩
-        | .ok prf =>
-          let authData := (AuthData.new req.rpId cred.counter).setFlags flags
-          match authData.toVec with
-          | none => ⟨.error eInvalidCredential, s, ev⟩
-          | some adBytes =>
-            ⟨.ok { credId := cred.credId, authData, signed := ⟨cred.key, adBytes ++ req.cdh⟩,
-                   userHandle := cred.userHandle, unsignedPrf := prf }, s, ev⟩
+    | .error c => ⟨.error c, f.2.1, f.2.2 :: ev2⟩
+    | .ok cred => (getAfterConsent cfg f.2.1 req flags cred).prepend (f.2.2 :: ev2)
 
 /-- `Authenticator::get_info`: (extensions contains "prf", options.rk, options.uv, options.up) -/
 def getInfo (cfg : Cfg) (u : UvCfg) (s : Store) : (Bool × Bool × Option Bool × Bool) × Store :=
